@@ -1,1 +1,588 @@
-fn main(){}
+//! E2: in-process engine. The repository's leaf modules (proto/*, parser/reader.rs,
+//! parser/types.rs, common/*) are compiled into this binary by path (see build.rs); nothing in
+//! /repo is modified. If this binary does not build against an edited /repo/src, the front end
+//! reports E2 as skipped and E1 alone decides.
+#[macro_use]
+extern crate log;
+
+include!(concat!(env!("OUT_DIR"), "/shim.rs"));
+
+use crate::blockchain::parser::reader::{BlockchainRead, XorReader};
+use crate::blockchain::parser::types::CoinType;
+use crate::blockchain::proto::block::Block as RBlock;
+use crate::blockchain::proto::script::eval_from_bytes;
+use crate::blockchain::proto::ToRaw;
+use proptest::prelude::*;
+use serde::{Deserialize, Serialize};
+use std::io::{Cursor, Read, Seek, SeekFrom};
+use std::panic::{catch_unwind, AssertUnwindSafe};
+use std::path::PathBuf;
+use std::str::FromStr;
+use vpmodel::chain::{Coin, ALL_COINS, FORK_COINS};
+use vpmodel::engine::{Engine, Pass, RunCfg, Verdict};
+use vpmodel::gen::{self, Tier, BS};
+use vpmodel::hashes::{fnv64, hex};
+use vpmodel::script::{btc_address_roundtrip, btc_expect, fork_expect, op_return_single_push, SType};
+use vpmodel::spec::{hexvec, ChainSpec};
+
+struct Args {
+    tier: Tier,
+    seed: u64,
+    out: PathBuf,
+    scale: f64,
+}
+
+fn scaled(n: u32, a: &Args) -> u32 {
+    ((n as f64) * a.scale).ceil().max(1.0) as u32
+}
+
+fn panic_text(e: Box<dyn std::any::Any + Send>) -> String {
+    if let Some(s) = e.downcast_ref::<&str>() {
+        s.to_string()
+    } else if let Some(s) = e.downcast_ref::<String>() {
+        s.clone()
+    } else {
+        "panic".into()
+    }
+}
+
+// ------------------------------------------------------------------------------------ scripts
+
+#[derive(Clone, Debug, Serialize, Deserialize)]
+struct ScriptBatch {
+    coin: Coin,
+    #[serde(with = "hexvec")]
+    scripts: Vec<Vec<u8>>,
+}
+
+fn batch(coins: Vec<Coin>, script: BS<Vec<u8>>, n: usize) -> BS<ScriptBatch> {
+    (proptest::sample::select(coins), proptest::collection::vec(script, 1..=n)).prop_map(|(coin, scripts)| ScriptBatch { coin, scripts }).boxed()
+}
+
+/// (type label, address, OP_RETURN payload) as reported by the tool
+fn eval(coin: Coin, s: &[u8]) -> Result<(String, Option<String>, Option<String>), String> {
+    let r = catch_unwind(AssertUnwindSafe(|| eval_from_bytes(s, coin.addr_version())));
+    match r {
+        Ok(e) => {
+            let dbg = format!("{:?}", e.pattern);
+            let (label, payload) = if dbg.starts_with("OpReturn(") {
+                let p = match &e.pattern {
+                    crate::blockchain::proto::script::ScriptPattern::OpReturn(p) => Some(p.clone()),
+                    _ => None,
+                };
+                ("OpReturn(\"\")".to_string(), p)
+            } else {
+                (dbg, None)
+            };
+            Ok((label, e.address, payload))
+        }
+        Err(p) => Err(panic_text(p)),
+    }
+}
+
+fn check_script_batch(b: &ScriptBatch, prop: &str) -> Verdict {
+    let mut keys = Vec::new();
+    let testnet = b.coin == Coin::Testnet3;
+    for s in &b.scripts {
+        let (label, addr, payload) = match eval(b.coin, s) {
+            Ok(x) => x,
+            Err(p) => return Verdict::Fail(format!("script evaluation panicked on {} for script {}: {}", b.coin.cli(), hex(s), p)),
+        };
+        let st = SType::from_report_name(&label);
+        if b.coin.is_btc() {
+            let e = btc_expect(s, testnet);
+            if prop != "C14" {
+                match st {
+                    Some(t) if e.types.contains(&t) => {}
+                    _ => return Verdict::Fail(format!("{}: script {} typed {} but the reference rules allow {:?}", b.coin.cli(), hex(s), label, e.types)),
+                }
+                if addr != e.address {
+                    return Verdict::Fail(format!("{}: script {} ({}): address {:?}, reference {:?}", b.coin.cli(), hex(s), label, addr, e.address));
+                }
+                if let Some(a) = &addr {
+                    if let Err(m) = btc_address_roundtrip(s, testnet, a) {
+                        return Verdict::Fail(format!("{}: script {} address {}: {}", b.coin.cli(), hex(s), a, m));
+                    }
+                }
+                if let Some(p) = op_return_single_push(s) {
+                    // C16: payload of OP_RETURN + exactly one push
+                    let want = String::from_utf8(p).unwrap_or_default();
+                    if payload.as_deref() != Some(want.as_str()) {
+                        return Verdict::Fail(format!("{}: OP_RETURN script {}: payload {:?}, expected {:?}", b.coin.cli(), hex(s), payload, want));
+                    }
+                }
+            }
+            if e.templateish {
+                keys.push(fnv64(s));
+            }
+        } else {
+            let e = fork_expect(s, b.coin.addr_version());
+            if prop != "C14" {
+                if st != Some(e.stype) {
+                    return Verdict::Fail(format!("{}: script {} typed {} but its token sequence is {:?}", b.coin.cli(), hex(s), label, e.stype));
+                }
+                if addr != e.address {
+                    return Verdict::Fail(format!("{}: script {} ({}): address {:?}, reference {:?}", b.coin.cli(), hex(s), label, addr, e.address));
+                }
+                if e.stype == SType::OpReturn && payload != e.payload {
+                    return Verdict::Fail(format!("{}: OP_RETURN script {}: payload {:?}, expected {:?}", b.coin.cli(), hex(s), payload, e.payload));
+                }
+            }
+            if e.interesting {
+                keys.push(fnv64(s));
+            }
+        }
+        if prop == "C14" && st.is_none() {
+            return Verdict::Fail(format!("{}: script {} evaluates to {}", b.coin.cli(), hex(s), label));
+        }
+    }
+    let sample = serde_json::json!({"coin": b.coin.cli(), "scripts": b.scripts.iter().take(3).map(|s| hex(&s[..s.len().min(60)])).collect::<Vec<_>>()});
+    Verdict::Pass(Pass { nontrivial: !keys.is_empty(), key: fnv64(format!("{:?}", keys).as_bytes()), classes: vec![format!("coin={}", b.coin.cli())], known: vec![], sub_evals: b.scripts.len() as u64, sample: Some(sample), extra_keys: keys })
+}
+
+// ------------------------------------------------------------------------------------ blocks
+
+#[derive(Clone, Debug, Serialize, Deserialize)]
+struct BlockCase {
+    chain: ChainSpec,
+}
+
+fn cointype(c: Coin) -> CoinType {
+    CoinType::from_str(c.cli()).expect("coin known to the tool")
+}
+
+fn check_block_case(c: &BlockCase) -> Verdict {
+    let built = c.chain.build();
+    let ct = cointype(built.coin);
+    let mut n = 0;
+    for (h, b) in &built.blocks {
+        let bytes = b.ser();
+        let r = catch_unwind(AssertUnwindSafe(|| {
+            let mut cur = Cursor::new(bytes.clone());
+            let blk = cur.read_block(bytes.len() as u32, &ct);
+            (blk, cur.position())
+        }));
+        let (blk, pos) = match r {
+            Ok((Ok(b), p)) => (b, p),
+            Ok((Err(e), _)) => return Verdict::Fail(format!("read_block failed on a well-formed block at height {}: {}", h, e)),
+            Err(p) => return Verdict::Fail(format!("read_block panicked at height {}: {}", h, panic_text(p))),
+        };
+        if let Err(m) = compare_block(b, &blk, pos, bytes.len()) {
+            return Verdict::Fail(format!("block at height {} ({}): {}", h, built.coin.cli(), m));
+        }
+        n += 1;
+    }
+    let aux = built.blocks.iter().filter(|(_, b)| b.auxpow.is_some()).count();
+    let seg = built.blocks.iter().any(|(_, b)| b.txs.iter().any(|t| t.segwit));
+    let mut classes = vec![format!("coin={}", built.coin.cli())];
+    if aux > 0 {
+        classes.push("auxpow".into());
+    }
+    if seg {
+        classes.push("segwit".into());
+    }
+    let sample = serde_json::json!({"coin": built.coin.cli(), "blocks": built.blocks.len(), "with_auxpow": aux, "segwit": seg});
+    Verdict::Pass(Pass { nontrivial: aux > 0 || seg || built.blocks.iter().any(|(_, b)| b.txs.len() > 1), key: fnv64(serde_json::to_string(c).unwrap_or_default().as_bytes()), classes, known: vec![], sub_evals: n, sample: Some(sample), extra_keys: vec![] })
+}
+
+fn compare_block(m: &vpmodel::chain::Block, r: &RBlock, pos: u64, len: usize) -> Result<(), String> {
+    use bitcoin::hashes::Hash;
+    if pos as usize != len {
+        return Err(format!("reader consumed {} of {} bytes", pos, len));
+    }
+    if r.header.hash.to_byte_array() != m.hash() {
+        return Err("block hash differs from double-SHA256 of the 80-byte header".into());
+    }
+    let hv = &r.header.value;
+    if (hv.version, hv.timestamp, hv.bits, hv.nonce) != (m.version, m.time, m.bits, m.nonce) || hv.prev_hash.to_byte_array() != m.prev || hv.merkle_root.to_byte_array() != m.merkle {
+        return Err("header fields differ".into());
+    }
+    if r.aux_pow_extension.is_some() != m.auxpow.is_some() {
+        return Err(format!("AuxPoW section {} but the block {} one", if r.aux_pow_extension.is_some() { "decoded" } else { "not decoded" }, if m.auxpow.is_some() { "has" } else { "has not" }));
+    }
+    if r.tx_count.value != m.txs.len() as u64 || r.txs.len() != m.txs.len() {
+        return Err(format!("tx count {} / {} txs decoded, block has {}", r.tx_count.value, r.txs.len(), m.txs.len()));
+    }
+    for (i, (rt, mt)) in r.txs.iter().zip(m.txs.iter()).enumerate() {
+        if rt.hash.to_byte_array() != mt.txid() {
+            return Err(format!("txid of tx {} differs from double-SHA256 of the witness-stripped serialisation", i));
+        }
+        if rt.value.to_bytes() != mt.ser_stripped() {
+            return Err(format!("re-serialisation of tx {} differs from the witness-stripped bytes", i));
+        }
+        let v = &rt.value;
+        if (v.version, v.locktime) != (mt.version, mt.locktime) || v.inputs.len() != mt.inputs.len() || v.outputs.len() != mt.outputs.len() || v.in_count.value != mt.inputs.len() as u64 || v.out_count.value != mt.outputs.len() as u64 {
+            return Err(format!("tx {}: version/locktime/counts differ", i));
+        }
+        for (k, (ri, mi)) in v.inputs.iter().zip(mt.inputs.iter()).enumerate() {
+            if ri.outpoint.txid.to_byte_array() != mi.prev_txid || ri.outpoint.index != mi.prev_index || ri.script_sig != mi.script_sig || ri.seq_no != mi.sequence {
+                return Err(format!("tx {} input {} differs", i, k));
+            }
+        }
+        for (k, (ro, mo)) in v.outputs.iter().zip(mt.outputs.iter()).enumerate() {
+            if ro.out.value != mo.value || ro.out.script_pubkey != mo.script {
+                return Err(format!("tx {} output {} differs", i, k));
+            }
+        }
+    }
+    if r.compute_merkle_root().to_byte_array() != m.merkle {
+        return Err("computed merkle root differs from the reference merkle root".into());
+    }
+    Ok(())
+}
+
+// ------------------------------------------------------------------------------------ merkle
+
+#[derive(Clone, Debug, Serialize, Deserialize)]
+struct MerkleCase {
+    n: u16,
+    seed: u32,
+}
+
+fn check_merkle(c: &MerkleCase) -> Verdict {
+    use bitcoin::hashes::{sha256d, Hash};
+    let n = (c.n as usize).max(1);
+    let leaves: Vec<[u8; 32]> = (0..n).map(|i| vpmodel::hashes::sha256(&[(c.seed as u64 + i as u64).to_le_bytes().as_slice(), b"leaf"].concat())).collect();
+    let want = vpmodel::chain::merkle_root(&leaves);
+    let r = catch_unwind(|| crate::common::utils::merkle_root(leaves.iter().map(|l| sha256d::Hash::from_byte_array(*l)).collect()));
+    match r {
+        Ok(g) if g.to_byte_array() == want => {}
+        Ok(_) => return Verdict::Fail(format!("merkle_root of {} leaves differs from the Bitcoin merkle root", n)),
+        Err(p) => return Verdict::Fail(format!("merkle_root panicked on {} leaves: {}", n, panic_text(p))),
+    }
+    let class = if n.is_power_of_two() { "2^k" } else if (n + 1).is_power_of_two() || (n - 1).is_power_of_two() { "2^k+-1" } else if n % 2 == 1 { "odd" } else { "even" };
+    Verdict::Pass(Pass { nontrivial: n >= 3, key: n as u64, classes: vec![format!("shape={}", class)], known: vec![], sub_evals: 1, sample: Some(serde_json::json!({"leaves": n})), extra_keys: vec![] })
+}
+
+// ------------------------------------------------------------------------------------ xor reader
+
+#[derive(Clone, Debug, Serialize, Deserialize)]
+enum Op {
+    SeekStart(u32),
+    ReadExact(u16),
+    ReadU32,
+    Read(u16),
+}
+
+#[derive(Clone, Debug, Serialize, Deserialize)]
+struct XorCase {
+    len: u32,
+    #[serde(with = "vpmodel::spec::hexser")]
+    key: Vec<u8>,
+    bufcap: u16,
+    ops: Vec<Op>,
+}
+
+fn xor_strategy() -> BS<XorCase> {
+    let op = prop_oneof![3 => any::<u32>().prop_map(Op::SeekStart), 4 => (0u16..5000).prop_map(Op::ReadExact), 2 => Just(Op::ReadU32), 2 => (0u16..40000).prop_map(Op::Read)];
+    (1000u32..120_000, proptest::option::weighted(0.85, prop_oneof![4 => Just(8usize), 1 => Just(1usize), 3 => 1usize..=64].prop_flat_map(|n| proptest::collection::vec(any::<u8>(), n))), prop_oneof![3 => Just(32768u16), 2 => 1u16..200, 1 => 200u16..40000], proptest::collection::vec(op, 1..60))
+        .prop_map(|(len, key, bufcap, ops)| XorCase { len, key: key.unwrap_or_default(), bufcap, ops })
+        .boxed()
+}
+
+fn check_xor(c: &XorCase) -> Verdict {
+    // plaintext p[i] = f(i); disk bytes = p[i] ^ key[i % keylen]
+    let plain: Vec<u8> = (0..c.len as usize).map(|i| ((i * 131) ^ (i >> 8) ^ 0x5a) as u8).collect();
+    let disk: Vec<u8> = if c.key.is_empty() { plain.clone() } else { plain.iter().enumerate().map(|(i, b)| b ^ c.key[i % c.key.len()]).collect() };
+    let inner = seek_bufread::BufReader::with_capacity(c.bufcap.max(1) as usize, Cursor::new(disk));
+    let mut rd = XorReader::new(inner, if c.key.is_empty() { None } else { Some(c.key.clone()) });
+    let mut pos: usize = 0;
+    let mut back = false;
+    let mut cross = false;
+    for (k, op) in c.ops.iter().enumerate() {
+        let r = catch_unwind(AssertUnwindSafe(|| -> Result<(), String> {
+            match op {
+                Op::SeekStart(p) => {
+                    let p = (*p as u64 * (c.len as u64 + 1) >> 32) as usize;
+                    if p < pos {
+                        back = true;
+                    }
+                    if (p as i64 - pos as i64).unsigned_abs() as usize > c.bufcap as usize {
+                        cross = true;
+                    }
+                    let got = rd.seek(SeekFrom::Start(p as u64)).map_err(|e| e.to_string())?;
+                    if got != p as u64 {
+                        return Err(format!("seek to {} returned {}", p, got));
+                    }
+                    pos = p;
+                }
+                Op::ReadExact(n) => {
+                    let n = (*n as usize).min(plain.len() - pos);
+                    let mut buf = vec![0u8; n];
+                    rd.read_exact(&mut buf).map_err(|e| e.to_string())?;
+                    if buf != plain[pos..pos + n] {
+                        let i = buf.iter().zip(&plain[pos..pos + n]).position(|(a, b)| a != b).unwrap();
+                        return Err(format!("read_exact({}) at offset {}: byte {} decodes wrongly", n, pos, pos + i));
+                    }
+                    pos += n;
+                }
+                Op::ReadU32 => {
+                    if plain.len() - pos >= 4 {
+                        use byteorder::{LittleEndian, ReadBytesExt};
+                        let v = rd.read_u32::<LittleEndian>().map_err(|e| e.to_string())?;
+                        let w = u32::from_le_bytes([plain[pos], plain[pos + 1], plain[pos + 2], plain[pos + 3]]);
+                        if v != w {
+                            return Err(format!("read_u32 at offset {}: got {:#x}, expected {:#x}", pos, v, w));
+                        }
+                        pos += 4;
+                    }
+                }
+                Op::Read(n) => {
+                    let mut buf = vec![0u8; *n as usize];
+                    let got = rd.read(&mut buf).map_err(|e| e.to_string())?;
+                    if got > plain.len() - pos || buf[..got] != plain[pos..pos + got] {
+                        return Err(format!("read({}) at offset {} returned {} wrongly decoded bytes", n, pos, got));
+                    }
+                    pos += got;
+                }
+            }
+            Ok(())
+        }));
+        match r {
+            Ok(Ok(())) => {}
+            Ok(Err(m)) => return Verdict::Fail(format!("XorReader (key length {}, buffer {}), op #{} {:?}: {}", c.key.len(), c.bufcap, k, op, m)),
+            Err(p) => return Verdict::Fail(format!("XorReader panicked at op #{} {:?}: {}", k, op, panic_text(p))),
+        }
+    }
+    let mut classes = vec![format!("keylen={}", match c.key.len() { 0 => "none", 1 => "1", 8 => "8", 2..=7 => "2-7", _ => "9-64" })];
+    if back {
+        classes.push("backward-seek".into());
+    }
+    if cross {
+        classes.push("seek-beyond-buffer".into());
+    }
+    Verdict::Pass(Pass { nontrivial: back && !c.key.is_empty() && c.key.len() != 1, key: fnv64(serde_json::to_string(c).unwrap_or_default().as_bytes()), classes, known: vec![], sub_evals: c.ops.len() as u64, sample: Some(serde_json::json!({"key_len": c.key.len(), "buffer": c.bufcap, "ops": c.ops.iter().take(6).map(|o| format!("{:?}", o)).collect::<Vec<_>>()})), extra_keys: vec![] })
+}
+
+// ------------------------------------------------------------------------------------ get_mean
+
+#[derive(Clone, Debug, Serialize, Deserialize)]
+struct MeanCase {
+    v: Vec<u32>,
+}
+
+fn check_mean(c: &MeanCase) -> Verdict {
+    let r = catch_unwind(|| crate::common::utils::get_mean(&c.v));
+    let sum: u128 = c.v.iter().map(|x| *x as u128).sum();
+    match r {
+        Ok(g) => {
+            if !c.v.is_empty() {
+                let exact = sum as f64 / c.v.len() as f64;
+                if (g - exact).abs() > 1e-9 * exact.abs() + 1e-9 {
+                    return Verdict::Fail(format!("get_mean of {} samples (sum {}) returned {}, exact mean is {}", c.v.len(), sum, g, exact));
+                }
+            }
+        }
+        Err(p) => return Verdict::Fail(format!("get_mean panicked on {} samples with sum {}: {}", c.v.len(), sum, panic_text(p))),
+    }
+    let big = sum > u32::MAX as u128;
+    Verdict::Pass(Pass { nontrivial: big, key: fnv64(format!("{:?}", c.v).as_bytes()), classes: vec![format!("sum>2^32={}", big)], known: vec![], sub_evals: 1, sample: Some(serde_json::json!({"n": c.v.len(), "sum": sum.to_string()})), extra_keys: vec![] })
+}
+
+// ------------------------------------------------------------------------------------ thread pools
+
+#[derive(Clone, Debug, Serialize, Deserialize)]
+struct PoolCase {
+    chain: ChainSpec,
+    threads: u8,
+}
+
+fn check_pool(c: &PoolCase) -> Verdict {
+    let built = c.chain.build();
+    let ct = cointype(built.coin);
+    let pool = match rayon::ThreadPoolBuilder::new().num_threads(c.threads.max(1) as usize).build() {
+        Ok(p) => p,
+        Err(e) => return Verdict::Infra(format!("cannot build a rayon pool: {}", e)),
+    };
+    let mut n = 0;
+    for (h, b) in &built.blocks {
+        let bytes = b.ser();
+        for _rep in 0..3 {
+            let r = pool.install(|| {
+                let mut cur = Cursor::new(bytes.clone());
+                cur.read_block(bytes.len() as u32, &ct).map_err(|e| e.to_string())
+            });
+            let blk = match r {
+                Ok(b) => b,
+                Err(e) => return Verdict::Fail(format!("read_block failed at height {}: {}", h, e)),
+            };
+            if let Err(m) = compare_block(b, &blk, bytes.len() as u64, bytes.len()) {
+                return Verdict::Fail(format!("with a pool of {} threads, block at height {}: {}", c.threads, h, m));
+            }
+            // evaluated outputs must line up with the raw outputs (order of the inner collect)
+            for (rt, mt) in blk.txs.iter().zip(b.txs.iter()) {
+                for (ro, mo) in rt.value.outputs.iter().zip(mt.outputs.iter()) {
+                    let e = vpmodel::script::expect_for(built.coin, &mo.script);
+                    if ro.script.address != e.address {
+                        return Verdict::Fail(format!("with a pool of {} threads an output's evaluated address does not belong to its script", c.threads));
+                    }
+                }
+            }
+            n += 1;
+        }
+    }
+    let maxtx = built.blocks.iter().map(|(_, b)| b.txs.len()).max().unwrap_or(0);
+    Verdict::Pass(Pass { nontrivial: maxtx >= 16 && c.threads >= 2, key: fnv64(serde_json::to_string(c).unwrap_or_default().as_bytes()), classes: vec![format!("threads={}", c.threads)], known: vec![], sub_evals: n, sample: Some(serde_json::json!({"threads": c.threads, "max_txs": maxtx})), extra_keys: vec![] })
+}
+
+// ------------------------------------------------------------------------------------ driver
+
+fn block_strategy(tier: Tier, auxpow_only: bool) -> BS<BlockCase> {
+    let mut cfg = gen::ChainCfg::new(tier, gen::ordinary_script(tier));
+    cfg.tx.big_counts = true;
+    cfg.tx.max_value = u64::MAX;
+    cfg.nblocks = (1usize..=3).boxed();
+    cfg.ntx = prop_oneof![6 => 0usize..4, 1 => Just(0xfcusize), 1 => Just(0xfdusize)].boxed();
+    if auxpow_only {
+        cfg.coin = prop_oneof![4 => Just(Coin::Namecoin), 4 => Just(Coin::Dogecoin), 1 => gen::any_coin()].boxed();
+    }
+    gen::chain(&cfg).prop_map(|chain| BlockCase { chain }).boxed()
+}
+
+fn run_property(id: &str, eng: &Engine, a: &Args) -> (&'static str, Vec<&'static str>) {
+    let tier = a.tier;
+    let q = tier == Tier::Quick;
+    match id {
+        "C05" => {
+            let n = if q { 2400 } else { 80_000 };
+            eng.explore("per-script", scaled(n, a), move || batch(vec![Coin::Bitcoin, Coin::Testnet3], gen::any_script(tier), 256), |b| check_script_batch(b, "C05"));
+            ("E2: batches of up to 256 scripts from the full grammar evaluated in-process by eval_from_bytes(bytes, 0x00|0x6f); each verdict (type, address, OP_RETURN payload) compared with the three-valued reference classifier and the address round-trip decoder. Non-trivial script = template / near miss / witness lookalike; distinct by script bytes.", vec![])
+        }
+        "C06" => {
+            let n = if q { 2400 } else { 80_000 };
+            eng.explore("per-script", scaled(n, a), move || batch(FORK_COINS.to_vec(), prop_oneof![4 => gen::any_script(tier), 3 => gen::template_any_push(tier), 2 => gen::mutated_template(tier)].boxed(), 256), |b| check_script_batch(b, "C06"));
+            ("E2: batches of up to 256 scripts evaluated in-process with each fork coin's version byte; type, address and OP_RETURN payload compared with the strict reference tokeniser/template model. Non-trivial = contains PUSHDATA/NOP or is a template; distinct by script bytes.", vec![])
+        }
+        "C16" => {
+            let n = if q { 1600 } else { 20_000 };
+            eng.explore("payload-extraction", scaled(n, a), move || batch(ALL_COINS.to_vec(), gen::c16_script(tier), 256), |b| check_script_batch(b, "C16"));
+            ("E2: OP_RETURN single-push scripts in every push encoding and payload class evaluated in-process on all 8 coins; extracted payload compared with the pushed bytes (valid UTF-8 only on bitcoin/testnet3, lossy on fork coins).", vec![])
+        }
+        "C14" => {
+            let n = if q { 4000 } else { 200_000 };
+            eng.explore("totality", scaled(n, a), move || batch(ALL_COINS.to_vec(), prop_oneof![3 => gen::any_script(tier), 2 => gen::many_pushes(tier), 2 => gen::token_script(tier), 1 => gen::raw_script(tier), 1 => gen::leading_opcode(tier)].boxed(), 256), |b| check_script_batch(b, "C14"));
+            ("E2: catch_unwind around eval_from_bytes for batches of hostile scripts (truncated pushes, huge PUSHDATA4, all leading opcodes, hundreds to thousands of pushes, raw bytes) on all 8 coins, debug assertions and overflow checks on; any panic or Error(..) verdict is a violation.", vec![])
+        }
+        "C01" => {
+            let n = if q { 600 } else { 60_000 };
+            eng.explore("read_block-roundtrip", scaled(n, a), move || block_strategy(tier, false), check_block_case);
+            ("E2: generated blocks (CompactSize boundary classes, legacy/segwit, AuxPoW where the coin has it) serialised by the model and decoded in-process by BlockchainRead::read_block; every field, block hash, txids, witness-stripped re-serialisation, consumed length and merkle root compared.", vec![])
+        }
+        "C12" => {
+            let n = if q { 600 } else { 60_000 };
+            eng.explore("auxpow-roundtrip", scaled(n, a), move || block_strategy(tier, true), check_block_case);
+            ("E2: blocks with generated AuxPoW sections and versions around the threshold decoded in-process; the section must be consumed exactly (consumed length == stored length) and hash / txs must equal the model.", vec![])
+        }
+        "C09" => {
+            let n = if q { 3000 } else { 100_000 };
+            eng.explore("merkle-root", scaled(n, a), || (prop_oneof![4 => 1u16..40, 2 => 40u16..600, 1 => prop_oneof![Just(255u16), Just(256u16), Just(257u16), Just(1023u16), Just(1025u16)]], any::<u32>()).prop_map(|(n, seed)| MerkleCase { n, seed }).boxed(), check_merkle);
+            ("E2: utils::merkle_root on 1..1025 generated leaves vs the reference Bitcoin merkle root (odd levels duplicate their last hash).", vec![])
+        }
+        "C11" => {
+            let n = if q { 200_000 } else { 1_000_000 };
+            eng.explore("xorreader-state-machine", scaled(n, a), xor_strategy, check_xor);
+            ("E2 (stateful): generated op lists [SeekStart | ReadExact | ReadU32 | Read] on XorReader<seek_bufread::BufReader<Cursor>> with generated key (none, 1..64 bytes), buffer capacity (1..40000) and file length, against a plain array model; bytes and positions compared after every op. Non-trivial = a backward seek with a multi-byte key.", vec![])
+        }
+        "C15" => {
+            let n = if q { 100_000 } else { 1_000_000 };
+            eng.explore("get_mean", scaled(n, a), || prop_oneof![3 => proptest::collection::vec(any::<u32>(), 0..40), 2 => proptest::collection::vec(0u32..2_000_000, 0..200), 1 => proptest::collection::vec(prop_oneof![Just(u32::MAX), Just(4_000_000_000u32), Just(1u32)], 2..12), 1 => proptest::collection::vec(900_000u32..1_100_000, 4200..4600)].prop_map(|v| MeanCase { v }).boxed(), check_mean);
+            ("E2: utils::get_mean on generated u32 vectors incl. sums beyond 2^32 (few huge samples; thousands of ~1 MB block sizes) vs the exact u128 mean.", vec![])
+        }
+        "C13" => {
+            let n = if q { 150 } else { 20_000 };
+            eng.explore(
+                "thread-pools",
+                scaled(n, a),
+                move || {
+                    let mut cfg = gen::ChainCfg::new(tier, gen::ordinary_script(tier));
+                    cfg.nblocks = (1usize..=2).boxed();
+                    cfg.ntx = prop_oneof![3 => 16usize..80, 1 => 0usize..4].boxed();
+                    cfg.tx.max_common = 8;
+                    (gen::chain(&cfg), prop_oneof![Just(1u8), Just(2u8), Just(3u8), Just(8u8), Just(16u8), Just(64u8)]).prop_map(|(chain, threads)| PoolCase { chain, threads }).boxed()
+                },
+                check_pool,
+            );
+            ("E2: read_block + Block::new executed inside rayon pools of 1/2/3/8/16/64 threads, three repetitions per block; order of transactions and of evaluated outputs compared with the sequential model.", vec![])
+        }
+        _ => ("", vec![]),
+    }
+}
+
+fn replay(id: &str, part: &str, case: serde_json::Value) -> Option<Verdict> {
+    Some(match (id, part) {
+        ("C05", _) | ("C06", _) | ("C16", _) | ("C14", _) => check_script_batch(&serde_json::from_value(case).ok()?, id),
+        ("C01", _) | ("C12", _) => check_block_case(&serde_json::from_value(case).ok()?),
+        ("C09", _) => check_merkle(&serde_json::from_value(case).ok()?),
+        ("C11", _) => check_xor(&serde_json::from_value(case).ok()?),
+        ("C15", _) => check_mean(&serde_json::from_value(case).ok()?),
+        ("C13", _) => check_pool(&serde_json::from_value(case).ok()?),
+        _ => return None,
+    })
+}
+
+fn main() {
+    let argv: Vec<String> = std::env::args().collect();
+    if argv.len() < 3 {
+        eprintln!("usage: vp-e2 check <ID> [--tier quick|thorough] [--seed N] [--out FILE] [--scale F] | vp-e2 replay <FILE>");
+        std::process::exit(2);
+    }
+    // panics inside catch_unwind are expected to be reported through verdicts, not on stderr
+    std::panic::set_hook(Box::new(|_| {}));
+    if catch_unwind(vpmodel::self_test).is_err() {
+        println!("INFRA model self test failed");
+        std::process::exit(2);
+    }
+    match argv[1].as_str() {
+        "check" => {
+            let id = argv[2].clone();
+            let mut a = Args { tier: Tier::Quick, seed: 0, out: PathBuf::from(format!("/verif/.cache/out/{}.e2.json", id)), scale: 1.0 };
+            let mut i = 3;
+            while i + 1 < argv.len() {
+                match argv[i].as_str() {
+                    "--tier" => a.tier = if argv[i + 1] == "thorough" { Tier::Thorough } else { Tier::Quick },
+                    "--seed" => a.seed = argv[i + 1].parse().unwrap_or(0),
+                    "--out" => a.out = PathBuf::from(&argv[i + 1]),
+                    "--scale" => a.scale = argv[i + 1].parse().unwrap_or(1.0),
+                    _ => {}
+                }
+                i += 2;
+            }
+            let shards = std::env::var("VP_SHARDS").ok().and_then(|s| s.parse().ok()).unwrap_or(16);
+            let replay_dir = PathBuf::from(std::env::var("VP_REPLAY_DIR").unwrap_or_else(|_| "/verif/replays".into()));
+            let eng = Engine::new(RunCfg { property: id.clone(), engine: "E2".into(), tier: a.tier, seed: a.seed, shards, replay_dir });
+            let (rule, _) = run_property(&id, &eng, &a);
+            if rule.is_empty() {
+                println!("INFRA E2 does not serve {}", id);
+                std::process::exit(2);
+            }
+            let code = eng.finish(&a.out, rule, &["the repository's leaf modules are compiled into the harness unchanged (by path); private items are reachable only through E1"], "exploration");
+            std::process::exit(code);
+        }
+        "replay" => {
+            let text = std::fs::read_to_string(&argv[2]).expect("read replay file");
+            let doc: serde_json::Value = serde_json::from_str(&text).expect("replay file is JSON");
+            let id = doc["property"].as_str().unwrap_or("").to_string();
+            let part = doc["part"].as_str().unwrap_or("").to_string();
+            match replay(&id, &part, doc["case"].clone()) {
+                Some(Verdict::Pass(_)) => {
+                    println!("replay passes: property={} part={}", id, part);
+                    std::process::exit(0)
+                }
+                Some(Verdict::Fail(m)) => {
+                    println!("VIOLATION property={} replay={}", id, argv[2]);
+                    println!("  reason: {}", m);
+                    std::process::exit(1)
+                }
+                Some(Verdict::Infra(m)) => {
+                    println!("INFRA {}", m);
+                    std::process::exit(2)
+                }
+                None => {
+                    println!("INFRA cannot replay {} {}", id, part);
+                    std::process::exit(2)
+                }
+            }
+        }
+        _ => std::process::exit(2),
+    }
+}
